@@ -164,7 +164,7 @@ BODIES = [
 def gen_scenario(rng, via="api", runs=2, allow_known=True):
     truth = rng.choice(KINDS)
     given = set(KINDS) if rng.random() < 0.6 else {truth, rng.choice([k for k in KINDS if k != truth])}
-    meth = rng.random() < (0.45 if allow_known else 0.0)
+    meth = rng.random() < (0.3 if allow_known else 0.0)
     nested_cls = allow_known and rng.random() < 0.2
     cname = rng.choice(["ConfigClass", "Config", "TrainConfig"])
     names = {"class": ("Outer.%s" % cname) if nested_cls else cname,
@@ -189,7 +189,7 @@ def gen_scenario(rng, via="api", runs=2, allow_known=True):
     return {"truth": truth, "given": sorted(given), "names": names, "targets": targets, "ir_seed": rng.randint(0, 10 ** 9),
             "via": via, "runs": runs, "truth_sur": rng.randint(0, 2), "truth_sur_seed": rng.randint(0, 10 ** 9),
             "symlink": rng.random() < 0.2, "tilde": rng.random() < 0.15, "body": body,
-            "with_returns": truth == "argparse_function" and rng.random() < 0.4}
+            "with_returns": truth in ("argparse_function", "class") and rng.random() < 0.5}
 
 
 def build_project(scn, root):
